@@ -101,8 +101,8 @@ PROPS = {
     "C17": _p(["K1", "K5", "B3", "T4", "V7"],
               "pos_next / pos_prev return the minimum / maximum of the qualifying columns for every arrangement of up to four columns, probe and cur (V7, abstract evaluation); the three width/bell range tables are sorted, disjoint and lo <= hi (bisection precondition), the shortcut thresholds in uc_isdw/uc_iszw do not exclude listed characters, find() agrees with the tables at every range boundary by abstract evaluation, widths are 0/1/2 (K1); pos[]/off[] allocations cover their writes (B3).",
               "tiling and round-trip laws of the column mapping (behavioural)."),
-    "C18": _p(["O1", "O2", "K2", "K3", "B7", "T4", "K6", "O3", "O4"],
-              "dir_context gives the documented base direction for td = -2..+2 and four kinds of first character (O4, abstract evaluation with the context patterns modelled); dir_fix reverses the whole match iff the context is right-to-left, the inner group iff the mark is, and recurses iff the mark is nested (O3, one loop iteration over all paths x sign cases); uc_shape hands the form table the nearest non-combining neighbours, none at the ends of the line (K6, abstract evaluation on short lines); the order array is written only by the identity initialisation over [0,n), the guarded terminator fixed point and an element swap whose loop runs while beg < end, and is inverted as off[pos[i]] = i (O1: necessary for `always a permutation`); every shaping form is, per the Unicode database, the isolated/initial/medial/final presentation form of the same letter, the table is strictly increasing for its bisection, and uc_cshape picks medial/final/initial/base by (join_prev, join_next) for every row x 25 neighbour contexts and never alters non-Arabic characters, by abstract evaluation (K2); direction-mark rows reference existing groups that fit subs[], dir/ctx in range (K3); the loops filling the pattern arrays are bounded by table lengths <= array sizes (B7).",
+    "C18": _p(["O1", "O2", "K2", "K3", "B7", "T4", "K6", "O3", "O4", "K5"],
+              "in the prefix-sum loop of ren_position_reorder the character whose width advances the column is the one the column is stored for (K5); dir_context gives the documented base direction for td = -2..+2 and four kinds of first character (O4, abstract evaluation with the context patterns modelled); dir_fix reverses the whole match iff the context is right-to-left, the inner group iff the mark is, and recurses iff the mark is nested (O3, one loop iteration over all paths x sign cases); uc_shape hands the form table the nearest non-combining neighbours, none at the ends of the line (K6, abstract evaluation on short lines); the order array is written only by the identity initialisation over [0,n), the guarded terminator fixed point and an element swap whose loop runs while beg < end, and is inverted as off[pos[i]] = i (O1: necessary for `always a permutation`); every shaping form is, per the Unicode database, the isolated/initial/medial/final presentation form of the same letter, the table is strictly increasing for its bisection, and uc_cshape picks medial/final/initial/base by (join_prev, join_next) for every row x 25 neighbour contexts and never alters non-Arabic characters, by abstract evaluation (K2); direction-mark rows reference existing groups that fit subs[], dir/ctx in range (K3); the loops filling the pattern arrays are bounded by table lengths <= array sizes (B7).",
               "that swap ranges stay inside the line (matcher offsets) and the reversal semantics of runs (behavioural)."),
     "C12": _p(["L1", "L2", "L3", "L4", "L5", "T4", "M2", "L6"],
               "every literal-path return of rstr_find is reachable only when the pattern has no compiled set (L6); resumed at an interior offset with the left-context flag, the fast path, the engine started there and the engine on the whole line give the same first match on all lines of length <= 3 (L5); every caller that resumes inside a line passes that flag and the caller working on a copied run does not (M2); the fast path accepts an offset exactly when the engine's own RA_WBEG / RA_WEND atoms accept it, on every line of length <= 3 over {word, '-', blank}, and folds case exactly as the engine's literal atom does on every byte against its 0x20-neighbours (L5); every byte the regex parser treats as an operator (case labels, strchr sets and comparisons of the parser functions) stops the literal classifier's scan, so a pattern with an operator is never a literal (L1); a literal match stores all 2n group slots, groups >= 1 as unset, and the set matcher fills all slots whenever it returns >= 0 (L2); the two word predicates agree on all 255 byte values by abstract evaluation (L3); the word-boundary tests never read before the subject (linear proof at each look-behind read) (L4).",
@@ -116,8 +116,8 @@ PROPS = {
     "C16": _p(["T1", "T2", "T3", "T4", "R5", "T7", "T8", "T9", "T10"],
               "led_readchar reads exactly the continuation bytes the lead byte announces, for every length class, from the initial state of its buffer (T10, abstract evaluation); the decoders stay inside a string that ends inside a sequence (T9); vi_case rewrites a byte in place only under a test that it is ASCII (T7); led_readchar terminates its static buffer on every path that returns it (T8); the lead-byte length classes, masks and shifts of uc_len/uc_code equal RFC 3629's for all 256 lead bytes x continuation combinations, and the continuation-scanning uc_end agrees with the lead-byte length on well-formed input (T3); the regex engine's private uc_len/uc_dec/uc_beg equal the editor's on all well-formed inputs, by abstract evaluation of both ASTs (T2); no constant byte step is taken on line text without ASCII knowledge (T1).",
               "agreement of the helpers built on next/previous over all strings (that is exhaustive execution); T4 (character counts never used as byte offsets) is not implemented."),
-    "C11": _p(["R1", "R10", "R11", "R2", "R3", "R5", "R7", "R8", "B3", "B6", "R12"],
-              "the matching state (program counter, depth, marks, subject pointer) is set afresh inside the scan loop for every start position (R12); the compiled program fits its allocation: rnode_count and rnode_emit/rnode_emitnorep are abstractly evaluated as cost functions (re_insert = 1, children symbolic) for every node kind and every repetition pair that rnode_atom admits (value ranges of the digit accumulation, rejection tests evaluated per cell) and estimate - emitted has only non-negative coefficients; jmpend pushes <= NREPS; regcomp adds its own 3 (R1); the estimate is a bounded quantity: every return of rnode_count is proved <= a constant cap, its arithmetic cannot leave int with children at the cap on every admitted cell, and regcomp allocates and emits only when the estimate is strictly below the cap, i.e. no clamp fired (R10); recursion is depth-guarded and 256 frames fit 1 MiB (R2); the private decoders and the bracket scanner never read or step past the terminator, by exhaustive abstract evaluation over all byte strings up to length 4-5 of a representative alphabet (R3); marks beyond the limit are dropped, reads of marks are index-guarded (R7); pattern allocations are exact (B3) and out-arrays large enough (B6).",
+    "C11": _p(["R1", "R10", "R11", "R2", "R3", "R5", "R7", "R8", "B3", "B6", "R12", "R4"],
+              "a branch that fails restores the whole matcher state, marks included, so no group offset of an abandoned branch survives (R4); the matching state (program counter, depth, marks, subject pointer) is set afresh inside the scan loop for every start position (R12); the compiled program fits its allocation: rnode_count and rnode_emit/rnode_emitnorep are abstractly evaluated as cost functions (re_insert = 1, children symbolic) for every node kind and every repetition pair that rnode_atom admits (value ranges of the digit accumulation, rejection tests evaluated per cell) and estimate - emitted has only non-negative coefficients; jmpend pushes <= NREPS; regcomp adds its own 3 (R1); the estimate is a bounded quantity: every return of rnode_count is proved <= a constant cap, its arithmetic cannot leave int with children at the cap on every admitted cell, and regcomp allocates and emits only when the estimate is strictly below the cap, i.e. no clamp fired (R10); recursion is depth-guarded and 256 frames fit 1 MiB (R2); the private decoders and the bracket scanner never read or step past the terminator, by exhaustive abstract evaluation over all byte strings up to length 4-5 of a representative alphabet (R3); marks beyond the limit are dropped, reads of marks are index-guarded (R7); pattern allocations are exact (B3) and out-arrays large enough (B6).",
               "termination of matching in general; that offsets fall on character boundaries for literal runs rests on the pattern being valid UTF-8."),
     "C15": _p(["S4", "G1", "G2", "G4", "B11", "T5", "S5", "S2", "G8", "G9"],
               "after each execution the scan resumes at 0 or at most at min(current index, lowest changed line), the latter read from a line-buffer field that lbuf_replace lowers to its position on every path, and an enclosing global gets min(its saved value, the inner one) back (G9); every `1 << level` combined with a line's mark uses a level inside the cell's width: the level is the global nesting counter, whose every increment is dominated by a test against a constant that keeps it there (G8); ex_command's bump is skipped while the global's depth counter is non-zero, so command lists that run registers or scripts stay inside the global's undo step (S4); the same for ec_glob (T5); every name the command table maps to ec_glob gets the same argument split, by abstract evaluation of ex_arg (S5); nothing reachable from a line-command handler or from ex_exec (dispatch edge "
